@@ -537,6 +537,36 @@ func c14Finish(w *World) {
 			r.Violate("C14", "crash_restart_diverges", map[string]string{"cause": cause}, "after %d kills and restarts the index differs from the index of an uninterrupted run started at height %d: %s (%d vs %d entries)", st.Kills, st.FirstH, why, len(want), len(got))
 		}
 	}
+	// --- the index is a function of the chain alone, not of the order in which one indexer instance was given the blocks
+	// (back-filling history, filling a hole): descending, or newest third first
+	{
+		var recs []*BlockRecord
+		for _, rec := range w.C.Records {
+			if rec.Res != nil && rec.Height > st.FirstH {
+				recs = append(recs, rec)
+			}
+		}
+		order := make([]*BlockRecord, 0, len(recs))
+		if r.Seed%2 == 0 {
+			for i := len(recs) - 1; i >= 0; i-- {
+				order = append(order, recs[i])
+			}
+		} else {
+			cut := len(recs) * 2 / 3
+			order = append(append(order, recs[cut:]...), recs[:cut]...)
+		}
+		altDB := sdkdb.NewMemDB()
+		alt := indexer.NewKVIndexer(altDB, log.NewNopLogger(), st.cctx)
+		for _, rec := range order {
+			if err := alt.IndexBlock(rec.Block, rec.Res.TxResults); err != nil {
+				r.Violate("C14", "index_block_failed", map[string]string{"order": "not_ascending"}, "IndexBlock(%d) failed: %v", rec.Height, err)
+			}
+		}
+		r.Count("o:index_built_in_another_order")
+		if ok, why := sameKVs(DumpDB(twinDB), DumpDB(altDB)); !ok {
+			r.Violate("C14", "index_depends_on_indexing_order", nil, "one instance given the same %d blocks in another order built a different index: %s", len(order), why)
+		}
+	}
 	// --- idempotence / order: indexing blocks again, old after new, changes nothing
 	before := DumpDB(twinDB)
 	for i := len(w.C.Records) - 1; i >= 0; i-- {
